@@ -318,7 +318,7 @@ def _variants(prog):
     return fs
 
 
-def run_programs(progs, d, tagbase="b"):
+def run_programs(progs, d, tagbase="b", alone=False):
     """Render every program in every expressible variant, execute in parallel subprocesses.
     Returns [{form: {step index: outcome} | {"err": ..}}] aligned with ``progs``."""
     pkg = os.path.join(d, f"pkg_{tagbase}")
@@ -331,7 +331,7 @@ def run_programs(progs, d, tagbase="b"):
             nm = f"m{tagbase}_{i}_{fm}"
             write_file(pkg, nm + ".py", render(pr, fm))
             mods.append((nm, i, fm))
-    nb = max(1, min(len(mods), PROCS * 4))
+    nb = len(mods) if alone else max(1, min(len(mods), PROCS * 4))
     chunks = [mods[k::nb] for k in range(nb)]
     env = dict(os.environ)
     env["PYTHONPATH"] = REPO + os.pathsep + env.get("PYTHONPATH", "")
@@ -433,3 +433,334 @@ def programs_from_sim(behs):
         steps = [st["last"] for _, st in beh[1:]]
         progs.append(Prog(st0["p"], st0["h"], st0["lnames"], st0["cls"] not in ((), None), steps))
     return progs
+
+
+# ====================================================================== judging real outcomes
+SYMPTOM = {
+    ("accept", "violation"): "accepts an object that is no instance of the class the name denotes",
+    ("violation", "accept"): "rejects an instance of the class the name denotes",
+    ("accept", "fwdref"): "accepts although a needed name is unbound (no forward-reference exception)",
+    ("violation", "fwdref"): "reports a violation although a needed name is unbound (no forward-reference exception)",
+    ("fwdref", "accept"): "forward-reference exception although every name is bound",
+    ("fwdref", "violation"): "forward-reference exception although every name is bound",
+}
+ROUTE_TEXT = {
+    "fake": "parent frame gone: proxy resolved to the name-matching fake class",
+    "otherframe": "parent frame searched by code object: another activation's locals were used",
+    "global": "module attribute of the same name taken instead of the binding of the enclosing scope",
+    "capglobal": "at decoration the module's class was captured for a name that is local to the enclosing function",
+    "sharedproxy": "second activation's hint replaced by the first activation's hint object (proxies shared)",
+    "unresolved": "proxy raised although the name is lexically bound",
+}
+DEVIATION_ROUTES = ["fake", "otherframe", "global", "capglobal", "sharedproxy"]
+
+
+def _model_form(fm):
+    return fm
+
+
+class Judge:
+    def __init__(self, rep):
+        self.rep = rep
+        self.stats = {"calls": 0, "want_fwdref_only": 0, "want_either": 0, "defined_later_resolved": 0,
+                      "usable_after_fwdref": 0, "ev_compared": 0, "forms_compared": 0, "programs": 0,
+                      "real_equals_model_0230": 0, "real_differs_from_model_0230": 0}
+        self.routes = {}
+        self.first = {}            # canonical key -> (prog, form, step) of the first example
+        self.pending = []          # violations to confirm alone: (key, what, case)
+        self.oracle_doubt = []
+
+    def program(self, prog, outs, origin):
+        self.stats["programs"] += 1
+        raised = {}          # callable -> a forward-reference exception was really raised before
+        for i, s in prog.calls():
+            want = set(s["want"])
+            self.stats["calls"] += 1
+            self.rep.count()
+            if want == {"fwdref"}:
+                self.stats["want_fwdref_only"] += 1
+            elif "fwdref" in want:
+                self.stats["want_either"] += 1
+            if not s["evok"] and "fwdref" not in want:
+                self.stats["defined_later_resolved"] += 1
+            for r in (s["blame"]["str"]["a"], s["blame"]["str"]["b"]):
+                if r:
+                    self.routes[r] = self.routes.get(r, 0) + 1
+            reals = {}
+            for fm, res in outs.items():
+                if "err" in res:
+                    continue
+                reals[fm] = res.get(i, "missing")
+            if "ev" in reals:
+                self.stats["ev_compared"] += 1
+                if reals["ev"] not in want:
+                    self.oracle_doubt.append((prog, i, reals["ev"], sorted(want)))
+            if len(reals) > 1:
+                self.stats["forms_compared"] += 1
+            for fm, real in reals.items():
+                if fm == "ev":
+                    continue
+                got = s["got"][fm]
+                self.stats["real_equals_model_0230" if real == got else "real_differs_from_model_0230"] += 1
+                if real == "fwdref":
+                    raised[s["f"]] = True
+                elif raised.get(s["f"]) and "fwdref" not in want and real in want:
+                    self.stats["usable_after_fwdref"] += 1
+                    raised[s["f"]] = False
+                if real in want:
+                    continue
+                self._violation(prog, i, s, fm, real, got, want, reals, origin)
+        for fm, res in outs.items():
+            if "err" in res:
+                self._import_error(prog, fm, res["err"], origin)
+        self.rep.nontrivial(prog.key())
+
+    def _violation(self, prog, i, s, fm, real, got, want, reals, origin):
+        wverd = sorted(want - {"fwdref"})[0] if want != {"fwdref"} else "fwdref"
+        symptom = SYMPTOM.get((real, wverd), f"outcome {real}, allowed {sorted(want)}")
+        bl = s["blame"][fm]
+        route = next((r for r in (bl["a"], bl["b"]) if r), "")
+        if real == got and route:
+            key = {"placement": prog.p, "route": route, "symptom": symptom}
+            why = ROUTE_TEXT.get(route, route)
+        else:
+            key = {"placement": prog.p, "hint": prog.h, "form": fm, "real": real, "allowed": sorted(want),
+                   "model_0230": got, "unmodelled": True}
+            why = "not explained by the 0.23.0 switches of FwdRef.tla"
+        ck = json.dumps(key, sort_keys=True)
+        if ck in self.first:
+            self.first[ck]["count"] += 1
+            return
+        what = (f"placement {prog.p}, annotation {hint_src(prog.h, prog.p, fm)} ({fm} form), statement {i}: "
+                f"{_fmt_obj(s['obj'])} -> real outcome {real}; C07 allows {sorted(want)} "
+                f"(outcomes of the variants of this call: {reals}). {symptom}. Cause: {why}.")
+        case = {"prog": prog.to_json(), "form": fm, "step": i, "origin": origin, "real": real,
+                "allowed": sorted(want), "source": render(prog, fm)}
+        self.first[ck] = {"key": key, "what": what, "case": case, "count": 1, "prog": prog, "form": fm, "step": i}
+
+    def _import_error(self, prog, fm, err, origin):
+        if err.startswith("Beartype"):
+            key = {"placement": prog.p, "hint": prog.h, "form": fm, "decoration_error": err.split(":")[0]}
+            ck = json.dumps(key, sort_keys=True)
+            if ck not in self.first:
+                self.first[ck] = {"key": key, "what": f"placement {prog.p}, {fm} form: the program stops with {err}",
+                                  "case": {"prog": prog.to_json(), "form": fm, "step": -1, "origin": origin,
+                                           "source": render(prog, fm)},
+                                  "count": 1, "prog": prog, "form": fm, "step": -1}
+        else:
+            self.rep.machinery(f"generated program failed for a reason unrelated to beartype ({fm} form): {err}\n"
+                               + render(prog, fm))
+
+    def confirm_and_report(self, d):
+        """Each distinct violation is re-run alone in a fresh interpreter before it is reported."""
+        if self.oracle_doubt:
+            prog, i, real, want = self.oracle_doubt[0]
+            self.rep.machinery(f"oracle cannot be trusted: the EVALUATED variant of a program gives {real} at statement "
+                               f"{i} where FwdRef.tla allows {want}:\n" + render(prog, "ev"))
+        items = list(self.first.values())
+        if not items:
+            return
+        solo = run_programs([it["prog"] for it in items], d, tagbase="solo", alone=True)
+        for it, out in zip(items, solo):
+            fm, i = it["form"], it["step"]
+            r = out.get(fm, {})
+            if i >= 0:
+                real = r.get(i) if "err" not in r else "err"
+                if real != it["case"]["real"]:
+                    self.rep.note(f"batch-dependent outcome (alone: {real}, in the batch: {it['case']['real']}), "
+                                  f"not reported: {it['what'][:300]}")
+                    self.rep.add("batch_dependent")
+                    continue
+            it["case"]["occurrences"] = it["count"]
+            self.rep.violation(it["key"], it["what"], it["case"])
+
+
+def _fmt_obj(o):
+    def atom(a):
+        return {"inst": f"instance of class #{a['c']}", "unrel": "instance of an unrelated class", "none": "None"}[a["t"]]
+    if o["shape"] == "tuple":
+        return f"({atom(o['a'])}, {atom(o['b'])})"
+    if o["shape"] == "list":
+        return f"[{atom(o['a'])}]"
+    if o["shape"] == "dict":
+        return "{'k': %s}" % atom(o["a"])
+    return atom(o["a"])
+
+
+# ====================================================================== the check
+MUTANTS = [  # switch, placements, hints, invariants that may report it
+    ("GlobalFirst", ["closure", "method"], ["N"], {"VerdictAsEvaluated", "UnresolvableRaises", "UnneededEither"}),
+    ("FakeFallback", ["closure"], ["N"], {"VerdictAsEvaluated", "UnresolvableRaises", "UnneededEither"}),
+    ("FakeFallback", ["method", "nmethod"], ["list"], {"VerdictAsEvaluated", "UnresolvableRaises", "UnneededEither"}),
+    ("FrameByCode", ["closure"], ["N"], {"VerdictAsEvaluated", "UnresolvableRaises", "UnneededEither"}),
+    ("SharedProxy", ["closure"], ["list"], {"VerdictAsEvaluated", "UnresolvableRaises", "UnneededEither"}),
+    ("CacheFailure", ["modfunc"], ["N"], {"UsableOnceDefined"}),
+]
+
+
+def _mutants(rep, d):
+    """Every switch alone must be rejected by TLC; the counterexamples are programs."""
+    progs = []
+    for k, (sw, pls, hints, allowed) in enumerate(MUTANTS):
+        cfg = write_file(d, f"mut{k}.cfg", _cfg(pls, hints, 9, 2, 2, {sw: True},
+                                                invariants=[i for i in INVARIANTS if i != "NoFailureCached"]))
+        res = tlc.run_tlc("FwdRef.tla", cfg)
+        rep.tlc(res, f"FwdRef mutant {sw} {pls}")
+        if res.violated not in allowed:
+            rep.machinery(f"spec mutant {sw}=TRUE on {pls}: expected TLC to report one of {sorted(allowed)}, "
+                          f"got {res.violated}: the specification does not constrain this switch")
+        rep.add("spec_mutants_killed")
+        st0 = res.error_trace[0][1]
+        steps = [st["last"] for _, st in res.error_trace[1:]]
+        progs.append((sw, Prog(st0["p"], st0["h"], st0["lnames"], st0["cls"] not in ((), None), steps)))
+    return progs
+
+
+def _intended(rep, d, groups, steps, defs, calls):
+    for k, (pls, hints) in enumerate(groups):
+        cfg = write_file(d, f"int{k}.cfg", _cfg(pls, hints, steps, defs, calls))
+        res = tlc.run_tlc("FwdRef.tla", cfg, coverage=True)
+        rep.tlc(res, f"FwdRef intended design {pls} x {hints}")
+        if res.violated:
+            rep.machinery(f"FwdRef.tla with every switch off violates {res.violated} on {pls} x {hints}: the "
+                          f"specification of the intended design is itself inconsistent")
+        need = {"Decorate", "CallAny", "Define"}
+        if any(p in pls for p in ("closure", "cmethod")):
+            need |= {"EnterF", "LeaveF", "EnterF2", "Redefine"}
+        if any(p in pls for p in ("nmethod", "nmethod_cd")):
+            need |= {"EnterC", "EnterD", "LeaveD", "LeaveC"}
+        zero = [a for a in need if res.coverage.get(a, (0, 0))[1] == 0]
+        if zero and set(hints) != {"Self"}:
+            rep.machinery(f"vacuous TLC run on {pls} x {hints}: actions never taken: {zero}")
+
+
+def _graph_programs(rep, d, label, pls, hints, steps, defs, calls):
+    cfg = write_file(d, f"g_{label}.cfg", _cfg(pls, hints, steps, defs, calls, V0230, invariants=[]))
+    dot = os.path.join(d, f"g_{label}")
+    res = tlc.run_tlc("FwdRef.tla", cfg, dump_dot=dot)
+    rep.tlc(res, f"FwdRef 0.23.0 switches, graph {label}")
+    progs, nn, ne = programs_from_graph(dot + ".dot")
+    os.remove(dot + ".dot")
+    rep.add("graph_nodes", nn)
+    rep.add("graph_edges_replayed", ne)
+    return [p for p in progs if p.calls()]
+
+
+def _sim_programs(rep, d, label, pls, hints, steps, defs, calls, num, seed):
+    cfg = write_file(d, f"s_{label}.cfg", _cfg(pls, hints, steps, defs, calls, V0230, invariants=[]))
+    res, behs = tlc.simulate("FwdRef.tla", cfg, num=num, depth=steps + 1, seed=seed)
+    rep.tlc(res, f"FwdRef 0.23.0 switches, simulation {label}")
+    return [p for p in programs_from_sim(behs) if p.calls()]
+
+
+def _dedup(progs):
+    seen, out = set(), []
+    for p in progs:
+        k = p.key()
+        if k not in seen:
+            seen.add(k)
+            out.append(p)
+    return out
+
+
+def run(rep, tier, seed):
+    rep.assumptions += [
+        "one behaviour of FwdRef.tla = one generated Python module; class identities are numbered in execution order",
+        "every generated class gets a unique __qualname__ (its __name__ is the plain name): beartype's repr-keyed "
+        "hint caches (property C14, finding F4a) would otherwise make even the evaluated variant reject the new "
+        "class of a second definition",
+        "containers hold exactly one item (two for the fixed tuple) so that no random sampling is involved",
+        "a forward-reference exception = BeartypeCallHintForwardRefException or BeartypeDecorHintForwardRefException "
+        "(or a subclass) raised by the call",
+        "where an unbound name cannot influence the verdict (None for N | None, a non-list for list[N], a first "
+        "tuple item that already fails) both the verdict and a forward-reference exception are accepted",
+        "programs re-bind a name only when no earlier check may or may not have pinned it (unambiguous first need)",
+    ]
+    quick = tier == "quick"
+    t0 = time.time()
+    with scratch("c07-") as d:
+        judge = Judge(rep)
+        # ---- R1: spec mutants, then the intended design
+        mut = _mutants(rep, d)
+        class_pl = ["modfunc", "method", "nmethod", "method_cd", "nmethod_cd"]
+        fun_pl = ["closure", "cmethod"]
+        if quick:
+            _intended(rep, d, [(class_pl, ALL_HINTS), (fun_pl, ["N", "list", "opt", "dict", "tuple"])], 7, 2, 2)
+        else:
+            _intended(rep, d, [(class_pl, ALL_HINTS)], 9, 3, 3)
+            _intended(rep, d, [(fun_pl, ["N", "list", "opt", "dict", "tuple"])], 9, 3, 2)
+        rep.note(f"R1 done after {time.time() - t0:.0f}s")
+        # ---- R2: programs
+        progs = []
+        origin = []
+        for sw, p in mut:
+            progs.append(p)
+            origin.append(f"TLC counterexample of the switch {sw}")
+        if quick:
+            batches = [("cls", class_pl, ALL_HINTS, 6, 2, 2), ("fun", fun_pl, ["N", "list", "tuple"], 7, 2, 2)]
+            sims = [("all", ALL_PLACEMENTS, ALL_HINTS, 11, 4, 4, 600)]
+        else:
+            batches = [("cls", class_pl, ALL_HINTS, 8, 3, 2), ("fun", fun_pl, ["N", "list", "opt", "dict", "tuple"], 8, 2, 2)]
+            sims = [("all", ALL_PLACEMENTS, ALL_HINTS, 14, 5, 5, 6000), ("fun", fun_pl, ALL_HINTS, 14, 5, 5, 4000)]
+        for label, pls, hints, steps, defs, calls in batches:
+            ps = _graph_programs(rep, d, label, pls, hints, steps, defs, calls)
+            progs += ps
+            origin += [f"edge cover of the state graph {label}"] * len(ps)
+            rep.note(f"graph {label}: {len(ps)} programs after {time.time() - t0:.0f}s")
+        for label, pls, hints, steps, defs, calls, num in sims:
+            ps = _sim_programs(rep, d, label, pls, hints, steps, defs, calls, num, seed)
+            progs += ps
+            origin += [f"tlc -simulate {label} seed {seed}"] * len(ps)
+        seen, uprogs, uorigin = set(), [], []
+        for p, o in zip(progs, origin):
+            k = p.key()
+            if k not in seen:
+                seen.add(k)
+                uprogs.append(p)
+                uorigin.append(o)
+        rep.note(f"{len(uprogs)} distinct programs to execute after {time.time() - t0:.0f}s")
+        outs = run_programs(uprogs, d)
+        rep.note(f"programs executed after {time.time() - t0:.0f}s")
+        for p, o, org in zip(uprogs, outs, uorigin):
+            judge.program(p, o, org)
+            rep.add("traces_validated_against_impl")
+        for p in uprogs[len(mut)::max(1, len(uprogs) // 6)]:
+            rep.sample({"placement": p.p, "hint": p.h, "program": render(p, "str")})
+        for k, v in judge.stats.items():
+            rep.add(k, v)
+        rep.cov["model_routes_exercised"] = dict(judge.routes)
+        # non-vacuity of the replay
+        st = judge.stats
+        for k in ("want_fwdref_only", "want_either", "defined_later_resolved", "usable_after_fwdref", "ev_compared",
+                  "forms_compared"):
+            if st[k] == 0:
+                rep.machinery(f"vacuous replay: no executed call with {k}")
+        missing = [r for r in DEVIATION_ROUTES if not judge.routes.get(r)]
+        if missing:
+            rep.machinery(f"vacuous replay: the 0.23.0 switches {missing} never influenced a generated program")
+        if st["real_differs_from_model_0230"]:
+            rep.spec_drift(f"{st['real_differs_from_model_0230']} real outcomes differ from the 0.23.0-switch model of "
+                           f"FwdRef.tla (attribution only; the verdict is decided against Want)")
+        judge.confirm_and_report(d)
+    rep.cov["exhaustive"] = False
+
+
+def replay(rep, path):
+    case = json.load(open(path))["case"]
+    prog = Prog.from_json(case["prog"])
+    for s in prog.steps:
+        s["want"] = set(s["want"])
+    with scratch("c07r-") as d:
+        out = run_programs([prog], d, alone=True)[0]
+    print(render(prog, case["form"]))
+    for i, s in prog.calls():
+        print(f"statement {i}: {_fmt_obj(s['obj'])}: allowed {sorted(s['want'])}; real " +
+              ", ".join(f"{fm}={r.get(i) if 'err' not in r else r['err']}" for fm, r in out.items()))
+    judge = Judge(rep)
+    judge.program(prog, out, "replay")
+    for it in judge.first.values():
+        rep.violation(it["key"], it["what"], it["case"])
+    rep.level = "exploration"
+    rep.count(2)
+    rep.nontrivial("a")
+    rep.nontrivial("b")
